@@ -170,20 +170,26 @@ func opPeerLife() error {
 				pc := conns[ev.C]
 				var m wire.Message
 				switch ev.M {
-				case "version":
+				case "version", "versionOld", "versionBad":
 					me := wire.NewNetAddressIPPort(net.ParseIP(host), 8333, wire.SFNodeNetwork)
 					you := wire.NewNetAddressIPPort(net.ParseIP("44.0.0.2"), 8333, 0)
 					v := wire.NewMsgVersion(me, you, atomic.AddUint64(&nonceSeq, 1)+uint64(time.Now().UnixNano()), 0)
 					v.AddService(wire.SFNodeNetwork)
 					_ = v.AddUserAgent("verif-node", "1.0")
 					v.ProtocolVersion = int32(wire.ProtocolVersion)
+					if ev.M == "versionOld" {
+						v.ProtocolVersion = int32(peer.MinAcceptableProtocolVersion) - 1
+					}
+					if ev.M == "versionBad" {
+						v.UserAgent = "/Bitcoin Cash Node:1.0/"
+					}
 					m = v
 				case "verack":
 					m = wire.NewMsgVerAck()
 				default:
 					m = wire.NewMsgPing(uint64(k + 1))
 				}
-				pongs := pc.seen("pong")
+				pongs, rejects := pc.seen("pong"), pc.seen("reject")
 				_ = pc.remote.SetWriteDeadline(time.Now().Add(wait))
 				werr := wire.WriteMessage(pc.remote, m, wire.ProtocolVersion, r.params.Net)
 				ok := true
@@ -192,6 +198,8 @@ func opPeerLife() error {
 					ok = until(func() bool { return len(r.srv.newPeers) >= ev.NewQ })
 				case "fail":
 					ok = until(func() bool { return !pc.sp.Connected() && len(r.srv.donePeers) >= ev.DoneQ })
+				case "rejected":
+					ok = until(func() bool { return !pc.sp.Connected() && len(r.srv.donePeers) >= ev.DoneQ && pc.seen("reject") > rejects })
 				case "ack":
 					ok = until(func() bool { return pc.sp.VerAckReceived() })
 				case "none":
